@@ -10,7 +10,7 @@
     correct source and, in the other branch, a refutation witness together with the theorem for the regime that
     still holds ("partial"); [<mode>] is a closed boolean of Gen/C05Header.v, so the statement reduces to one
     branch for the tree being checked (the check prints which). *)
-From Coq Require Import ZArith List Bool.
+From Coq Require Import ZArith List Bool QArith.
 Require Import SPP.Gen.C05Header SPP.Model.C05_HeaderCodec SPP.Model.C05_RaDec.
 Require Import SPP.Proofs.C05_codec SPP.Proofs.C05_radec SPP.Proofs.C05_status.
 Import ListNotations.
@@ -138,6 +138,20 @@ Theorem C05_frame_status :
   else (forall f, In f [0; 1] -> frame_roundtrip f = f) /\ frame_roundtrip 2 <> 2.
 Proof. exact frame_status. Qed.
 Print Assumptions C05_frame_status.
+
+(** ** 4b. Pointing angles: [to_sigproc] must store degrees whatever unit the Header's Angle is held in, and
+    [from_sigproc] must read each key back into the attribute it came from.  Exact rationals, every unit
+    (deg, arcmin, arcsec, hourangle, rad with an arbitrary conversion factor), every value.  Otherwise: partial
+    (Angles already in degrees, keys not crossed) + refuted by (1 h, 2 h). *)
+Theorem C05_pointing_status :
+  if pointing_ok return Prop
+  then forall r zen az, (fst (pointing_roundtrip r zen az) == deg_of r zen /\ snd (pointing_roundtrip r zen az) == deg_of r az)%Q
+  else (forall r zen az, snd zen = UDeg -> snd az = UDeg ->
+          (za_start_attr =? 0) && (az_start_attr =? 1) && (zenith_read_key =? 0) && (azimuth_read_key =? 1) = true ->
+          (fst (pointing_roundtrip r zen az) == deg_of r zen /\ snd (pointing_roundtrip r zen az) == deg_of r az)%Q)
+       /\ ~ (fst (pointing_roundtrip 57 zen_w az_w) == deg_of 57 zen_w /\ snd (pointing_roundtrip 57 zen_w az_w) == deg_of 57 az_w)%Q.
+Proof. exact pointing_status. Qed.
+Print Assumptions C05_pointing_status.
 
 (** ** 5. Telescope / backend identifiers (every entry of the regenerated tables; unknown names -> default) *)
 Theorem C05_telescope_ids :
